@@ -118,7 +118,7 @@ theorem C18_between (tbl : List Row) (h : StrictX tbl) (i : Nat) (hi : i + 1 < t
   simp only [h0, h1] at hne0 hd
   simp only [beq_iff_eq, hne0, if_false]
   field_simp
-  ring
+  try ring
 
 /-- … hence lies between the two neighbouring y values -/
 theorem C18_between_bounds (x0 y0 x1 y1 x : Rat) (hx : x0 < x) (hx' : x < x1) :
